@@ -8,42 +8,39 @@ Import ListNotations.
 
 Definition F := 3.   (* call depth: has_value -> is_value; is_argument -> is_short/is_named; validate -> predicates *)
 
+(* one proof for all predicates: evaluate the translated expression (callees inlined by `eval`), split the name into its first
+   four bytes and every byte comparison into its two outcomes; an equivalent re-arrangement of a predicate still proves *)
+Ltac tok_split :=
+  match goal with
+  | |- context [beq ?x ?y] => destruct (beq x y) eqn:?
+  | |- context [match value_of ?a with _ => _ end] => destruct (value_of a) eqn:?
+  end.
+Ltac tok_crush :=
+  intros a; unfold is_value, is_double_dash, is_short, is_named, is_argument, has_value, has_prefix, is_value, is_short, is_named;
+  unfold dash, eqc; cbn; try reflexivity;
+  destruct (name_of a) as [|c0 [|c1 [|c2 [|c3 r]]]]; cbn; try reflexivity;
+  repeat (tok_split; cbn; try reflexivity); try congruence.
+
 Theorem Tie_C04_is_value : forall a, eval F gen_pred a (gen_pred PnIsValue) = Some (is_value a).
-Proof. intros a. unfold is_value. cbn. destruct (name_of a) as [|c r]; reflexivity. Qed.
+Proof. tok_crush. Qed.
 
 Theorem Tie_C04_is_double_dash : forall a, eval F gen_pred a (gen_pred PnIsDoubleDash) = Some (is_double_dash a).
-Proof. intros a. reflexivity. Qed.
+Proof. tok_crush. Qed.
 
 Theorem Tie_C04_is_short : forall a, eval F gen_pred a (gen_pred PnIsShort) = Some (is_short a).
-Proof. intros a. unfold is_short. cbn. destruct (name_of a) as [|c0 [|c1 r]]; cbn; try reflexivity; try (destruct (beq c0 x2d); reflexivity). Qed.
+Proof. tok_crush. Qed.
 
 Theorem Tie_C04_is_named : forall a, eval F gen_pred a (gen_pred PnIsNamed) = Some (is_named a).
-Proof.
-  intros a. unfold is_named. cbn. destruct (name_of a) as [|c0 [|c1 [|c2 r]]]; cbn; try reflexivity;
-    try (destruct (beq c0 x2d); cbn; try reflexivity; destruct (beq c1 x2d); reflexivity).
-Qed.
+Proof. tok_crush. Qed.
 
 Theorem Tie_C04_is_argument : forall a, eval F gen_pred a (gen_pred PnIsArgument) = Some (is_argument a).
-Proof.
-  intros a. unfold is_argument.
-  change (eval F gen_pred a (gen_pred PnIsArgument)) with
-    (lift2 orb (eval 2 gen_pred a (gen_pred PnIsShort)) (eval 2 gen_pred a (gen_pred PnIsNamed))).
-  change (eval 2 gen_pred a (gen_pred PnIsShort)) with (eval F gen_pred a (gen_pred PnIsShort)).
-  change (eval 2 gen_pred a (gen_pred PnIsNamed)) with (eval F gen_pred a (gen_pred PnIsNamed)).
-  rewrite Tie_C04_is_short, Tie_C04_is_named. reflexivity.
-Qed.
+Proof. tok_crush. Qed.
 
 Theorem Tie_C04_has_value : forall a, eval F gen_pred a (gen_pred PnHasValue) = Some (has_value a).
-Proof.
-  intros a. unfold has_value.
-  change (eval F gen_pred a (gen_pred PnHasValue)) with
-    (lift2 orb (eval 2 gen_pred a (gen_pred PnIsValue)) (Some (match value_of a with Some _ => true | None => false end))).
-  change (eval 2 gen_pred a (gen_pred PnIsValue)) with (eval F gen_pred a (gen_pred PnIsValue)).
-  rewrite Tie_C04_is_value. reflexivity.
-Qed.
+Proof. tok_crush. Qed.
 
 Theorem Tie_C04_has_prefix : forall a, eval F gen_pred a (gen_pred PnHasPrefix) = Some (has_prefix a).
-Proof. intros a. reflexivity. Qed.
+Proof. tok_crush. Qed.
 
 (* validate() *)
 Lemma run_of_count a : run_of dash a = count_dashes a.
